@@ -171,6 +171,37 @@ def r_label_tables(ctx, rule):
     ctx.decide(uses_owner, rule, rule + ":locality:current-owner", cur.loc,
                "looks the label up under self.current_label_owner",
                "ensure_is_current_label no longer uses the enclosing procedure's label set")
+    # the label owner is set to the procedure before its body is visited and reset to Global after
+    holders = [f for f in prog.fns.values() if f.name in ("on_function", "on_sub") and "label_linter" in f.id
+               and f.kind != "closure"]
+    if len(holders) < 2:
+        raise CheckError("LabelOwnerHolder::on_function / on_sub not found")
+    for f in sorted(holders, key=lambda x: x.id):
+        seq = []
+        for b in f.body.rpo():
+            t = f.body.term(b)
+            if t["k"] != "call":
+                continue
+            nm = (t.get("cpath") or "").split("::")[-1]
+            if nm == "set_label_owner":
+                pv = mir.Prov(f.body)
+                o = pv.of_operand(t["args"][1])
+                which = o[2].split("::")[-1] if o[0] == "agg" and o[2] else "?"
+                seq.append(("set", which, b))
+            elif nm == "visit_statements":
+                seq.append(("visit", None, b))
+        kinds = [(k, w) for k, w, _b in seq]
+        want_first = "Function" if f.name == "on_function" else "Sub"
+        ok = (len(kinds) == 3 and kinds[0] == ("set", want_first) and kinds[1] == ("visit", None)
+              and kinds[2] == ("set", "Global"))
+        if ok:
+            # the reset happens on the success path of the visit (every Ok return passes it)
+            ok = f.body.dominates(seq[1][2], seq[2][2])
+        ctx.decide(ok, rule, "%s:owner-scope:%s" % (rule, f.name), f.loc,
+                   "owner := %s; visit body; owner := Global" % want_first,
+                   "%s no longer brackets the procedure body with set_label_owner(%s) ... "
+                   "set_label_owner(Global) (sequence %s): statements after the procedure are checked "
+                   "against the wrong label set, so a branch can leave its procedure" % (f.name, want_first, kinds))
     # duplicate labels are rejected
     lc = [i for i in prog.impls_of_trait(PCL) if i["self_ty"].endswith("LabelCollector")]
     if len(lc) != 1:
@@ -190,4 +221,4 @@ def r_label_tables(ctx, rule):
                "LabelCollector::visit_label no longer rejects a label defined twice")
     ctx.analysed_units(rule, symbolic_statements=sorted(symbolic), carriers=carriers,
                        linter_methods=sorted(checked_methods))
-    ctx.require(rule, 5 + 6 + 1 + 5 + 2)
+    ctx.require(rule, 5 + 6 + 1 + 5 + 2 + 2)
